@@ -14,7 +14,16 @@ Generators (DESIGN §6 C06 Tie):
       counts included), 999 / 1 000 / 1 001 items by pushes, xDUP chains, altstack, initial stack;
   (d) VerifyScript: P2PKH, bare multisig, P2SH (multisig redeem, garbage redeem, non-push-only scriptSig,
       extra items for CLEANSTACK), random pairs — each under the 12 admissible flag sets;
-  (e) mutation of generated programs (byte flips / insertions / deletions).
+  (e) mutation of generated programs (byte flips / insertions / deletions);
+  (f) HISTORIES (op c06.seq, one process, live objects; ScriptGen.seq_histories + state_histories): every entry point
+      after an observer of the same CScript / transaction INSTANCE (12 script observers x 5 templates, both orders;
+      5 transaction observers on a live mutable and on one immutable object), after an earlier call that succeeded /
+      failed at different depths / (C07) escaped with a known-finding exception, with the same and other arguments;
+      flag sets alternating on flag-sensitive scripts; reused CECKey (key A then malformed keys); the caller's stack
+      list reused across EvalScript calls (kind E); a live CMutableTransaction edited in place.  The model answers each
+      step statelessly (kind E: from the stack the previous step left, which is what the caller holds);
+  (g) indices / depths above 256 (300-input transaction, hash types NONE / SINGLE at inputs 255..299, PICK / ROLL /
+      NUMEQUAL / EQUAL on run-time built operands): identity-for-equality slips show only there.
 Boundaries also come from the literals mined from the anchored functions (self.pool).
 """
 from ..framework import Prop, mk, guarded, ensure_repo_on_path, Case
@@ -134,6 +143,12 @@ class ScriptGen:
                  vout=[(1, b'\x76\xa9'), (2100000000000000, b''), (0, b'\x6a')], wit=None),
             dict(ver=-1, lock=4294967295, vin=[(h3, 2, b'\xab', 1), (h1, 3, b'', 2)], vout=[(7, b'\xac')], wit=None),
         ]
+        # (P3) indices and sizes above 256, where CPython's small-int cache ends (`is` in place of `==` shows only there):
+        # 300 inputs / 300 outputs with distinct non-zero sequence numbers and values.  Index 3; the generators that
+        # sweep transactions use range(3).
+        self.txs.append(dict(ver=1, lock=7,
+                             vin=[(bytes([k % 256]) * 32, 300 + k, b'', 0xfffffff0 - k) for k in range(300)],
+                             vout=[(1000 + k, bytes([0x51 + k % 16])) for k in range(300)], wit=None))
         self.txtext = [txfmt.show_tx(t) for t in self.txs]
 
     def flagset(self, mask):
@@ -720,7 +735,7 @@ class ScriptGen:
         a1s = stack_arg(a1) if kind == 'e' else bytes(a1).hex()
         return [kind, bytes(a0).hex(), a1s, str(mask), tx, str(idx), txref]
 
-    def seq_histories(self, rng, masks):
+    def seq_histories(self, rng, masks, findings=False):
         """[(tag, [step, ...])]; every history starts from freshly imported bitcoin.* modules"""
         out = []
         kA, kB = 0, 2
@@ -823,6 +838,118 @@ class ScriptGen:
                 ti = rng.randrange(2)
                 steps.append(self.step('v', sig, spk, rng.choice(masks), ti, ti))
             out.append(('seq-random', steps))
+        return out + self.state_histories(rng, masks, findings)
+
+    def state_histories(self, rng, masks, findings=False):
+        """histories aimed at state left behind by an EARLIER event in the same process or on the same object:
+        (P1) every entry point after an OBSERVER of the same CScript / transaction instance, and the same instances
+             through EvalScript and VerifyScript with other flags; (P2) every entry point right after a call that
+             succeeded, failed with a ValidationError at different depths (VERIFY, inside CHECKMULTISIG, CScriptInvalidError
+             inside FindAndDelete, op-count / stack limits) or — `findings`, C07 only — escaped with a known-finding
+             exception (D6 / D7 / D21), with the same and with other arguments; flag sets alternating on flag-sensitive
+             scripts; the caller's stack list reused across EvalScript calls (kind E).  rng = the common generator."""
+        out = []
+        H160 = self.C.Hash160
+        ti, idx = 1, 1
+        kA, kB = 0, 2
+        pubA, pubB = self.key(kA)[1], self.key(kB)[1]
+        p2pk = push(pubA) + b'\xac'
+        sig_p2pk = push(self.sign(kA, p2pk, ti, idx))
+        p2pkh = b'\x76\xa9' + push(H160(pubA)) + b'\x88\xac'
+        sig_p2pkh = push(self.sign(kA, p2pkh, ti, idx)) + push(pubA)
+        ms = pushnum(1) + push(pubA) + push(pubB) + pushnum(2) + b'\xae'
+        sig_ms = b'\x00' + push(self.sign(kB, ms, ti, idx))
+        p2sh = b'\xa9' + push(H160(ms)) + b'\x87'
+        sig_p2sh = sig_ms + push(ms)
+        m0 = [m for m in masks if not m & 4]
+        templates = [('p2pk', sig_p2pk, p2pk), ('p2pkh', sig_p2pkh, p2pkh), ('ms', sig_ms, ms), ('p2sh', sig_p2sh, p2sh)]
+
+        def v(sig, spk, mask, txref='imm', ti_=ti, idx_=idx):
+            return self.step('v', sig, spk, mask, ti_, idx_, txref)
+
+        def o(script, name, txref='imm'):
+            return ['o', bytes(script).hex(), name, '0', self.txtext[ti], str(idx), txref]
+        adm = [m for m in masks if not (m & 4) or (m & 1)]
+        # (P1) observer, then the entry points, on the same instances; and the reverse order
+        nonpush = ('p2sh-nonpush', sig_ms + b'\x61' + push(ms), p2sh)        # evaluates, but is not push-only
+        for oi, name in enumerate(self.SCRIPT_OBSERVERS):
+            for tj, (tname, sig, spk) in enumerate(templates + [nonpush]):
+                isp = tname.startswith('p2sh')
+                m1 = m0[(oi + tj) % len(m0)] | (1 if isp else 0)
+                m2 = adm[(oi * 5 + tj + 1) % len(adm)] | (1 if isp else 0)
+                inner = ms if isp else spk
+                out.append(('seq-observer-%s-first-%s' % (name, tname), [
+                    o(spk, name), o(sig, name), o(inner, name), v(sig, spk, m1),
+                    self.step('e', inner, [], 0, ti, idx, 'imm'), o(spk, name), v(sig, spk, m2)]))
+                out.append(('seq-observer-%s-after-%s' % (name, tname), [
+                    v(sig, spk, m1), o(spk, name), o(sig, name), v(sig, spk, m2 & ~4),
+                    self.step('e', spk, [b'\x01'], m2 & ~4, ti, idx, 'imm'), o(spk, name),
+                    self.step('e', spk, [pubA], m1, ti, idx, 'imm')]))
+        for oi, name in enumerate(self.TX_OBSERVERS):
+            for (first, then) in (('newmut', 'live'), ('imm', 'imm')):
+                import copy
+                t2 = copy.deepcopy(self.txs[ti])
+                t2['vout'][0] = (t2['vout'][0][0] + 1, t2['vout'][0][1])
+                tx2 = txfmt.show_tx(t2) if first == 'newmut' else ti
+                out.append(('seq-tx-observer-%s-%s' % (name[3:], first), [
+                    o(p2pk, name, first), v(sig_p2pk, p2pk, m0[oi % len(m0)], then),
+                    self.step('v', sig_p2pk, p2pk, m0[oi % len(m0)], tx2, idx, then), o(p2pk, name, then),
+                    self.step('v', sig_p2pk, p2pk, m0[(oi + 1) % len(m0)], tx2, idx, then),
+                    v(sig_p2pk, p2pk, m0[oi % len(m0)], then)]))
+        # (P2) a first call of every kind of ending, then the siblings with the same and with other arguments
+        cms_bad_count = pushnum(1) + push(pubA) + pushnum(3) + b'\xae'            # keys count > items: error inside CMS
+        trunc_after = p2pk + b'\x4c'                                           # FindAndDelete meets a truncated push
+        firsts = [('ok', v(sig_p2pk, p2pk, m0[0])),
+                  ('verify-false', v(push(self.sign(kB, p2pk, ti, idx)), p2pk, m0[0])),
+                  ('verify-op', v(sig_p2pkh[:-34] + push(pubB), p2pkh, m0[0])),
+                  ('cms-mid', v(sig_ms, cms_bad_count, m0[0])),
+                  ('cms-sigs-mid', v(b'\x00' + push(b'\x30\x01') + push(b''), pushnum(2) + push(pubA) + push(pubB) + pushnum(2) + b'\xae', m0[0])),
+                  ('invalid-in-fad', v(sig_p2pk, trunc_after, m0[0])),
+                  ('opcount', v(b'', b'\x61' * 202, m0[0])),
+                  ('stack-limit', v(b'', b'\x51' * 1001, m0[0])),
+                  ('eval-error-partial', self.step('e', b'\x51\x52\x6b\x93', [b'\x07'], m0[0], ti, idx, 'imm')),
+                  ('p2sh-inner-false', v(b'\x00' + push(self.sign(kA, b'\x51' + ms, ti, idx)) + push(ms), p2sh, 1))]
+        if findings:
+            import copy
+            t_oor = dict(copy.deepcopy(self.txs[ti]), ver=2 ** 31)
+            firsts += [('D7', v(sig_p2pk, p2pk, m0[0], 'imm', ti, -5)),
+                       ('D6', v(b'\x51', b'\x51', 4)),
+                       ('D21', self.step('v', sig_p2pk, p2pk, 0, txfmt.show_tx(t_oor), idx, 'imm'))]
+        for fi, (fname, first) in enumerate(firsts):
+            for si, (tname, sig, spk) in enumerate(templates):
+                mk_ = (1 if tname == 'p2sh' else 0) | m0[(fi + si) % len(m0)]
+                out.append(('seq-after-%s-%s' % (fname, tname), [
+                    first, v(sig, spk, mk_), first, v(sig, spk, mk_, 'new'),
+                    self.step('e', spk, [b'\x01', b'\x02'], mk_, ti, idx, 'imm')]))
+        # (P2c) flag sets alternating between consecutive calls on the same instances, on scripts whose verdict
+        #       depends on the flag: NULLDUMMY, DISCOURAGE_UPGRADABLE_NOPS, P2SH, CLEANSTACK (with P2SH)
+        sens = [('nulldummy', b'\x01\x01' + sig_ms[1:], ms, 0, 2),
+                ('nops', b'\x51', b'\xb0\xb9', 0, 8),
+                ('p2sh', b'\x00' + push(self.sign(kA, b'\x51' + ms, ti, idx)) + push(ms), p2sh, 0, 1),
+                ('cleanstack', b'\x51' + sig_p2sh, p2sh, 1, 5)]
+        for (name, sig, spk, off, on) in sens:
+            for (a_, b_) in ((off, on), (on, off)):
+                out.append(('seq-flags-%s-%d-then-%d' % (name, a_, b_), [
+                    v(sig, spk, a_), v(sig, spk, b_), v(sig, spk, a_), v(sig, spk, b_, 'new'),
+                    self.step('e', spk, [b'\x01'], b_ & ~4, ti, idx, 'imm'), v(sig, spk, a_)]))
+        # the caller's stack list reused across EvalScript calls, through successes and errors
+        def E(script, mask=0):
+            return self.step('E', script, [], mask, ti, idx, 'imm')
+        sgA = self.sign(kA, b'\xac', ti, idx)
+        out.append(('seq-stack-reuse-arith', [
+            self.step('e', b'\x51\x52', [], 0, ti, idx, 'imm'), E(b'\x93'), E(b'\x76'), E(b'\x6a'), E(b'\x87'),
+            E(b'\x6b\x6b'), E(b'\x6c'), E(b'\x74')]))
+        out.append(('seq-stack-reuse-after-error', [
+            self.step('e', b'\x51\x52\x53\x6d\x6d', [b'\x09'], 0, ti, idx, 'imm'), E(b'\x74'), E(b'\x63'), E(b'\x74\x69'),
+            E(b'\x52\x94\x69'), E(b'\x74')]))
+        out.append(('seq-stack-reuse-checksig', [
+            self.step('e', b'', [sgA, pubA], 0, ti, idx, 'imm'), E(b'\xac'), E(b'\x76'), E(b'\xac'),
+            E(push(sgA) + push(pubA) + b'\xac\x69'), E(b'\x74')]))
+        out.append(('seq-stack-reuse-cms-error', [
+            self.step('e', b'\x00' + push(sgA) + pushnum(1) + push(pubA), [], 2, ti, idx, 'imm'), E(pushnum(3) + b'\xae', 2),
+            E(b'\x74', 2), E(b'\x75\x51\xae', 2), E(b'\x74', 2)]))
+        out.append(('seq-stack-reuse-limit', [
+            self.step('e', b'\x51' * 999, [], 0, ti, idx, 'imm'), E(b'\x51\x51'), E(b'\x74'), E(b'\x6d\x6d\x74')]))
         return out
 
     def sync_tx_in_place(self, live, t):
@@ -850,8 +977,50 @@ class ScriptGen:
                 live.vout.append(C.CMutableTxOut(v, S.CScript(sc)))
         assert txfmt.from_tx(live) == dict(t, wit=None), 'in-place edit did not reach the target transaction'
 
+    SCRIPT_OBSERVERS = ('iter', 'raw_iter', 'is_p2sh', 'is_push_only', 'is_valid', 'has_canonical_pushes', 'sigops0',
+                        'sigops1', 'is_witness', 'hash', 'repr', 'p2sh_spk')
+    TX_OBSERVERS = ('tx:GetTxid', 'tx:GetHash', 'tx:serialize', 'tx:hash', 'tx:repr')
+
+    def call_observer(self, name, sc, txo):
+        """an observer of the script / transaction object between two evaluations; its own result is another property's
+        business (C08 / C01) — here it must leave no trace on later evaluations, and must not disturb this history"""
+        try:
+            if name.startswith('tx:'):
+                n = name[3:]
+                if n == 'hash':
+                    hash(txo)
+                elif n == 'repr':
+                    repr(txo)
+                else:
+                    getattr(txo, n)()
+            elif name == 'iter':
+                list(sc)
+            elif name == 'raw_iter':
+                list(sc.raw_iter())
+            elif name == 'sigops0':
+                sc.GetSigOpCount(False)
+            elif name == 'sigops1':
+                sc.GetSigOpCount(True)
+            elif name == 'is_witness':
+                sc.is_witness_scriptpubkey()
+            elif name == 'hash':
+                hash(sc)
+            elif name == 'repr':
+                repr(sc)
+            elif name == 'p2sh_spk':
+                sc.to_p2sh_scriptPubKey()
+            else:
+                getattr(sc, name)()
+        except Exception:  # noqa: BLE001 - see docstring
+            pass
+        return 'ok:obs'
+
     def run_history(self, args, observe=None):
-        """fresh bitcoin.* modules, then the steps on live objects; returns the step outcomes joined by ' ;; '"""
+        """fresh bitcoin.* modules (the neutral first step: a replay in a fresh process sees the same), then the steps
+        on LIVE objects: one CScript instance per distinct script text, transaction objects per `txref`
+        (`new` = a fresh immutable object, `imm` = THE immutable object of that text in this history, `newmut` = a fresh
+        CMutableTransaction that becomes the live one, `live` = the live one edited in place to the step's value), kind
+        `E` = EvalScript with the very list object of the previous `e` / `E` step.  Returns the outcomes joined by ' ;; '"""
         import sys
         for m in list(sys.modules):
             if m == 'bitcoin' or m.startswith('bitcoin.'):
@@ -859,26 +1028,36 @@ class ScriptGen:
         self.init_lib()
         live = None
         scripts = {}
+        imms = {}
+        last_stack = None
         outs = []
         for k in range(0, len(args), 7):
             kind, a0, a1, mask, tx, idx, txref = args[k:k + 7]
             t = txfmt.parse_tx(tx)
             if txref == 'newmut':
-                live = txfmt.to_tx(t, mutable=True)
+                live = self.build_tx(t, True)
                 txo = live
             elif txref == 'live' and live is not None:
                 self.sync_tx_in_place(live, t)
                 txo = live
+            elif txref == 'imm':
+                if tx not in imms:
+                    imms[tx] = self.build_tx(t, False)
+                txo = imms[tx]
             else:
-                txo = txfmt.to_tx(t, mutable=False)
+                txo = self.build_tx(t, False)
 
             def cs(hexs):
                 if hexs not in scripts:
                     scripts[hexs] = self.S.CScript(bytes.fromhex(hexs))
                 return scripts[hexs]
             flags = self.flagset(int(mask))
-            if kind == 'e':
-                stack = parse_stack_arg(a1)
+            if kind == 'o':
+                outs.append(self.call_observer(a1, cs(a0), txo))
+                continue
+            if kind in ('e', 'E'):
+                stack = last_stack if kind == 'E' else parse_stack_arg(a1)
+                last_stack = stack
                 sc = cs(a0)
 
                 def f():
@@ -1038,6 +1217,26 @@ class C06(Prop, ScriptGen):
             yield self.ev(sc, [self.sign(ht % 4, sc, ti, idx, ht), pub], 0, ti, idx, tag='hashtype')
             if ht % 16 == 3:
                 yield self.ev(sc, [self.sign(ht % 4, sc, ti, 0, ht), pub], 0, ti, idx, tag='hashtype-wrong-index')
+        # (P3) input indices and stack depths at and above 256 (run-time built ints are distinct objects from 257 on)
+        i = 0
+        for idx in (255, 256, 257, 258, 299):
+            for ht in (1, 2, 3, 0x81, 0x82, 0x83):
+                i += 1
+                if i % nshards != shard:
+                    continue
+                pub = self.key(ht % 4)[1]
+                yield self.ev(b'\xac', [self.sign(ht % 4, b'\xac', 3, idx, ht), pub], 0, 3, idx, tag='big-index')
+                if ht in (2, 3):
+                    yield self.ev(b'\xac', [self.sign(ht % 4, b'\xac', 3, idx - 1, ht), pub], 0, 3, idx, tag='big-index-wrong')
+            deep = [bytes([k % 251, k // 251]) for k in range(300)]
+            for op in (0x79, 0x7a):
+                i += 1
+                if i % nshards != shard:
+                    continue
+                for n in (idx, idx + 1, 300):
+                    yield self.ev(push(numvch(n)) + bytes([op]), deep, 0, tag='deep-pick-roll')
+                yield self.ev(push(numvch(idx)) + push(numvch(idx)) + b'\x9c', [], 0, tag='numequal-above-256')
+                yield self.ev(push(deep[idx]) + b'\x87', deep[:idx + 1], 0, tag='equal-distinct-objects')
         # (c) limit probes
         i = 0
         for (sc, st) in self.limit_probes(crng):
@@ -1165,6 +1364,8 @@ class C06(Prop, ScriptGen):
         tag = c.get('tag', '')
         if c['op'].endswith('.seq'):
             n = len(a) // 7
+            if 'E' in a[0::7]:
+                return                      # kind E depends on the steps before it
             for k in range(n):
                 if n > 1:
                     yield Case(op=c['op'], args=a[:7 * k] + a[7 * (k + 1):], tag=tag)
